@@ -1073,11 +1073,16 @@ def must_pass_flags(body, flow, src, dsts, via, avoid=()):
 
 # ---------------------------------------------------------------------- sensitive path enumeration
 
+import os as _os
+EXTRA_VISITS = int(_os.environ.get("FB_EXTRA_VISITS", "0") or 0)   # thorough tier: one more unrolling of every loop
+
+
 def sensitive_paths(body, flow, loop_visits=2, max_paths=200000, start=0):
     """Enumerate normal entry->return paths that are feasible w.r.t. constant flags (and plain copies of
     them) and enum-variant knowledge, visiting each block at most `loop_visits` times.
     Yields (kind, path, knowledge) where knowledge[i] is the dict place_str -> variant known at entry of
     path[i] on this path, kind in {"return", "diverge"}."""
+    loop_visits += EXTRA_VISITS
     flags = const_flag_locals(body, flow)
     derived = derived_flag_locals(body, flow, flags)
     labels = {bb: flow.edge_labels(bb) for bb in range(body.n) if body.term(bb)["k"] == "switch"}
